@@ -224,14 +224,18 @@ def build_records(pa, rng, tier, rep):
             add("comb", "lam", pa.CombinedCategoricalDissimilarity(alpha=2, beta=1, delta_empty=de, cat_dissim=UserDissim(names3, delta_empty=de)),
                 grid_pairs(names3, sample=60), de, 2, 1, M=F, rank=rank3, meta={"kind": "Combined(user-defined Lambda subclass)", "table": F})
     # --- ordinal: every supply order of 3 labels, explicit and default positions; many categories
-    for perm in itertools.permutations(names3):
-        for positions in ([0.0, 1.0, 2.0], [5.0, 1.0, 2.5], None):
-            de = rng.choice(des)
-            supplied = [rank3[n] for n in perm]
-            posv = positions if positions is not None else [0.0, 1.0, 2.0]
-            d = pa.OrdinalCategoricalDissimilarity(list(perm), p=None if positions is None else list(positions), delta_empty=de)
-            add("cat", "ord", d, grid_pairs(names3, sample=60), de, supplied=supplied, pos=[int(round(x * 2)) for x in posv], rank=rank3,
-                meta={"kind": "Ordinal", "labels_supplied": list(perm), "positions": positions})
+    # (also with names whose code-point order differs from their case-insensitive order: 'B' < 'a' < 'c')
+    mixed3 = ["a", "B", "c"]
+    rank_mixed = {n: i + 1 for i, n in enumerate(sorted(mixed3))}
+    for nm3, rk3 in ((names3, rank3), (mixed3, rank_mixed)):
+        for perm in itertools.permutations(nm3):
+            for positions in ([0.0, 1.0, 2.0], [5.0, 1.0, 2.5], None):
+                de = rng.choice(des)
+                supplied = [rk3[n] for n in perm]
+                posv = positions if positions is not None else [0.0, 1.0, 2.0]
+                d = pa.OrdinalCategoricalDissimilarity(list(perm), p=None if positions is None else list(positions), delta_empty=de)
+                add("cat", "ord", d, grid_pairs(nm3, sample=60), de, supplied=supplied, pos=[int(round(x * 2)) for x in posv], rank=rk3,
+                    meta={"kind": "Ordinal", "labels_supplied": list(perm), "positions": positions})
     for k in ([1, 2, 129, 300] if quick else [1, 2, 3, 127, 128, 129, 200, 300]):
         labels = [f"l{i:03d}" for i in range(k)]
         sup = list(labels)
